@@ -53,6 +53,10 @@ _NON_DETERMINISTIC_OPS = frozenset(
         "RandomUniformLike",
         "RandomNormalLike",
         "Multinomial",
+        "Bernoulli",
+        # Dropout in training mode draws a random mask. (The inference-mode forms
+        # are simplified by the partial evaluator before this set is consulted.)
+        "Dropout",
     }
 )
 
